@@ -42,6 +42,14 @@ def run(pid, tier):
     obs = pc.execute(rep, scen, 'default', 'C09')
     refs = [obs[j] if j is not None else None for j in refidx]
     pc.validate(rep, 'C09', scen, obs, 'C09-default', refs=refs, iso=1)
+    # the same comparison with a write callback that reports 0 bytes (a transport that queues): what A's terminator "wrote"
+    # must not change what B sends
+    keep = [i for i in range(len(scen)) if refidx[i] is None or i % 6 == 0]
+    pos = {i: k for k, i in enumerate(keep)}
+    sub = [scen[i] for i in keep]
+    obs0 = pc.execute(rep, sub, 'default', 'C09write0', env={'DRV_WRITE_ZERO': '1'})
+    refs0 = [obs0[pos[refidx[i]]] if refidx[i] is not None else None for i in keep]
+    pc.validate(rep, 'C09', sub, obs0, 'C09-write-returns-0', refs=refs0, iso=1)
     def nontriv(sc):
         a = b''.join(bytes(c) for c in sc['chunks'][:-1]); b = bytes(sc['chunks'][-1])
         return len(sc['chunks']) > 1 and (len(sc['chunks']) > 2 or b'@' in a or b'NOPE' in a or b'PART' in a or len(a) > 60 or b.startswith(b'B?'))
